@@ -66,13 +66,14 @@ def main(ctx, replay=None):
     try:
         for _, mode, ts, ps, req, vs, near in picks:
             d = Path(tempfile.mkdtemp(dir=tmp))
-            tv = [300.0 + 50.0 * x for x in ts]           # doubled units -> Kelvin (step 100 K per unit)
-            pv = [10.0 + 2.5 * x for x in ps]
+            t0, p0 = (0.0, 0.0) if rng.random() < 0.5 else (300.0, 10.0)      # grids starting at exactly 0 K / 0 GPa half of the time
+            tv = [t0 + 50.0 * x for x in ts]              # doubled units -> Kelvin (step 100 K per unit)
+            pv = [p0 + 2.5 * x for x in ps]
             for v in set(vs):
                 write_table(d / f"{VARNAME[v]}_tp_{SUFFIX[v]}", tv, pv, lambda i, j, t, p, v=v: 1e6 * VARCODE[v] + 1e3 * (i + 1) + (j + 1))
             # decoys: other variables' files must not be picked up
             write_table(d / "zz_tp_gpa.txt", tv, pv, lambda i, j, t, p: -1.0)
-            want = (300.0 + 50.0 * req) if mode == "T" else (10.0 + 2.5 * req)
+            want = (t0 + 50.0 * req) if mode == "T" else (p0 + 2.5 * req)
             args = ["-v", ",".join(VARNAME[v] for v in vs), "-T" if mode == "T" else "-P", repr(want)]
             case = {"mode": mode, "ts": ts, "ps": ps, "req": req, "vars": vs}
             ctx.count(case)
@@ -90,12 +91,12 @@ def main(ctx, replay=None):
                 continue
             bad = None
             for j, row in enumerate(rows[1:]):
-                if abs(float(row[0]) - labels[j]) > 1e-9:
+                if not abs(float(row[0]) - labels[j]) <= 1e-9:
                     bad = f"label {row[0]} expected {labels[j]}"
                 for k, v in enumerate(vs):
                     it, ip = (near, j + 1) if mode == "T" else (j + 1, near)
                     exp = 1e6 * VARCODE[v] + 1e3 * it + ip
-                    if abs(float(row[1 + k]) - exp) > 1e-6:
+                    if not abs(float(row[1 + k]) - exp) <= 1e-6:
                         got = float(row[1 + k])
                         bad = f"column {VARNAME[v]} line {j}: entry {got:.0f} (variable {int(got // 1e6)}, iT {int(got % 1e6 // 1e3)}, iP {int(got % 1e3)}) expected variable {VARCODE[v]}, iT {it}, iP {ip}"
             if bad:
@@ -120,6 +121,7 @@ def geotherm(ctx, rng, tmp, geo_main):
         write_table(d / "G_VRH_tp_gpa.txt", tv, pv, lambda i, j, t, p: g2(t, p))
         # geotherm: grid nodes first, then off-node points; an extra column must pass through
         nodes = [(int(i), int(j)) for i, j in zip(rng.integers(0, nt, 5), rng.integers(0, npp, 5))]
+        nodes[0], nodes[1], nodes[2] = (nt - 1, npp - 1), (0, 0), (nt - 1, int(rng.integers(0, npp)))      # corners and the last row
         offp = rng.uniform(5.0, 115.0, 8)
         offt = rng.uniform(400.0, 2600.0, 8)
         P = [pv[j] for _, j in nodes] + list(offp)
@@ -142,7 +144,7 @@ def geotherm(ctx, rng, tmp, geo_main):
             ctx.violation("extract-geotherm does not pass the geotherm's own columns through unchanged", {"output": r.output}, {"clause": "geotherm_passthrough"})
         for k, (i, j) in enumerate(nodes):
             for col, fn, name in ((3, f, "c11s"), (4, g2, "G_VRH")):
-                if abs(vals[k, col] - fn(tv[i], pv[j])) > 1e-5 * abs(fn(tv[i], pv[j])):       # 6 printed significant digits
+                if not abs(vals[k, col] - fn(tv[i], pv[j])) <= 1e-5 * abs(fn(tv[i], pv[j])):       # 6 printed significant digits
                     ctx.violation(f"extract-geotherm at the grid node (T={tv[i]}, P={pv[j]}) returns {vals[k, col]} for {name}, the table entry is {fn(tv[i], pv[j])}",
                                   {"node": [int(i), int(j)]}, {"clause": "geotherm_node", "var": name})
         err = max(float(numpy.max(numpy.abs(vals[5:, 3] - f(numpy.array(offt), numpy.array(offp))))), 1e-12)
